@@ -280,6 +280,9 @@ func extractZip(zipFile, dest string) error {
 	defer r.Close()
 	decompress := func(file *zip.File) error {
 		path := filepath.Join(dest, file.Name)
+		if path != filepath.Clean(dest) && !strings.HasPrefix(path, filepath.Clean(dest)+string(os.PathSeparator)) {
+			return fmt.Errorf("%s: illegal file path", path)
+		}
 
 		if file.FileInfo().IsDir() {
 			return os.MkdirAll(path, 0700)
